@@ -152,7 +152,7 @@ def rule_escape(check):
         for f in prog.user_fns:
             if f.def_path in direct:
                 continue
-            via = [x for x in f.nodes() if hir.is_call(x) and prog.resolve_local(x) is not None and prog.resolve_local(x).def_path in direct and any(w in (prog.resolve_local(x).rec.get("ret") or "") for w in ("Compiler", "SourceMap"))]
+            via = [x for x in f.nodes() if hir.is_call(x) and prog.resolve_local(x) is not None and prog.resolve_local(x).def_path in direct and (any(w in (prog.resolve_local(x).rec.get("ret") or "") for w in ("Compiler", "SourceMap")) or any(hir.peel(a_).get("k") == "Closure" and any("swc_ecma_ast" in (p_.get("ty") or "") for p_ in hir.peel(a_).get("params", [])) for a_ in hir.call_args(x)))]
             if via:
                 creators.append((f, via))
                 direct.add(f.def_path)
@@ -181,8 +181,17 @@ def rule_escape(check):
                 if len(assigns) == 1 and (hir.def_path_of(assigns[0]["r"]) or "").endswith("DUMMY_SP") and not ovs[0].conds_at(assigns[0]):
                     # applied to what is returned
                     recv = hir.place(hir.call_args(x)[0])
-                    rets = [hir.place(r) for r in return_exprs(f.body)]
-                    if recv and recv in rets and all(x["id"] < r["id"] for r in return_exprs(f.body) if hir.place(r) == recv):
+                    rexprs = list(return_exprs(f.body))
+                    # values handed back by a continuation closure (`|program| { ..; Ok(script.body) }`) escape too
+                    for cl in [c_ for c_ in hir.walk(f.body) if c_.get("k") == "Closure"]:
+                        for r_ in return_exprs(cl["body"]):
+                            r0 = hir.peel(r_)
+                            while r0.get("k") == "Call" and (hir.peel(r0["f"]).get("res", {}).get("ctor_path") or "").split("::")[-1] in ("Ok", "Some") and r0["args"]:
+                                r0 = hir.peel(r0["args"][0])
+                            rexprs.append(r0)
+                    ast_rets = [r for r in rexprs if hir.place(r) and any(a_ in (hir.peel(r).get("ty") or "") for a_ in ast_out)]
+                    rets = [hir.place(r) for r in rexprs]
+                    if recv and recv in rets and all(x["id"] < r["id"] for r in rexprs if hir.place(r) == recv) and all(hir.place(r) == recv for r in ast_rets):
                         norm = True
         check.expect(norm, R, key, hir.loc(f.rec), "returned %s is span-normalised before it escapes" % ast_out, "%s returns %s parsed in a private SourceMap with its byte offsets intact: mappings of injected prologue code point outside the input text" % (f.name, ast_out))
     check.floor(R, "functions returning AST parsed in a private SourceMap (the prologue parser)", n_ast, 1)
@@ -235,6 +244,26 @@ def rule_print_path(check):
         code = hir.local_of(a[2])
         names = [hir.local_of(x) for x in hir.walk(a[1]) if hir.local_of(x)]
         ok = bool(code) and rj.bindings()[code[0]]["origin"][:2] == ("param", 0) and any(rj.bindings()[l[0]]["origin"][:2] == ("param", 1) for l in names)
+    if not nsf:
+        # the file is registered by a helper rewrite_js calls: its (file, code) parameters must be fed with
+        # rewrite_js's own (file, code) at that call
+        for c in hir.calls_in(rj.body):
+            h = prog.resolve_local(c)
+            if h is None or h.body is None:
+                continue
+            for n in hir.calls_in(h.body, name="new_source_file"):
+                a = hir.call_args(n)
+                code = hir.local_of(a[2])
+                names = [hir.local_of(x) for x in hir.walk(a[1]) if hir.local_of(x)]
+                cb = h.bindings().get(code[0]) if code else None
+                fb = [h.bindings().get(l[0]) for l in names]
+                ci = cb["origin"][1] if cb and cb["origin"][0] == "param" else None
+                fi = [b["origin"][1] for b in fb if b and b["origin"][0] == "param"]
+                ca = hir.call_args(c)
+                if ci is not None and fi and ci < len(ca) and all(i < len(ca) for i in fi):
+                    lc = hir.local_of(ca[ci])
+                    lf = [hir.local_of(ca[i]) for i in fi]
+                    ok = bool(lc) and rj.bindings()[lc[0]]["origin"][:2] == ("param", 0) and any(l and rj.bindings()[l[0]]["origin"][:2] == ("param", 1) for l in lf)
     check.expect(ok, R, R + "/source-file", hir.loc(rj.rec), "the source file registered is (file, code) of this call", "rewrite_js does not register (file, code) as the source file")
 
 
